@@ -95,6 +95,21 @@ pub fn malformed(family: Family, unit: u8, step: u8) -> Vec<u8> {
     }
 }
 
+fn cut_len(len: usize, how: u8) -> usize {
+    match how {
+        1 => len / 2,
+        2 => len.saturating_sub(1),
+        3 => 5.min(len.saturating_sub(1)),
+        _ => 1.min(len.saturating_sub(1)),
+    }
+}
+
+/// Families whose reply to a request is one datagram / one stream and that have no challenge step: cutting the valid reply short gives
+/// a reply the client can only accept or reject (it cannot legitimately wait for more).
+pub fn mangle_applies(family: Family) -> bool {
+    matches!(family, Family::Quake(_) | Family::Gs2 | Family::Mindustry | Family::McBedrock | Family::McJava | Family::McLegacy(_))
+}
+
 #[derive(Debug, Default, Clone)]
 pub struct FaultLog {
     /// per attempt of the unit under test: (planned fault, did it take effect)
@@ -112,9 +127,13 @@ pub struct Faulty {
     pub step: u8,
     pub plan: Vec<Fault>,
     pub log: Rc<RefCell<FaultLog>>,
+    /// 0: a malformed outcome is the fixed hand-written reply; 1..=4: it is the valid reply cut short (half, last byte off, five bytes, one byte)
+    pub mangle: u8,
     cur: Fault,
     cur_step: u8,
     swallowing: bool,
+    /// TCP, cut replies: everything the inner server has written during this attempt (the client reads after its last send)
+    mangling: Option<Vec<u8>>,
 }
 
 impl Faulty {
@@ -128,9 +147,11 @@ impl Faulty {
                 step,
                 plan,
                 log: log.clone(),
+                mangle: 0,
                 cur: Fault::Valid,
                 cur_step: 0,
                 swallowing: false,
+                mangling: None,
             },
             log,
         )
@@ -157,8 +178,24 @@ impl Responder for Faulty {
             l.first_requests.push(data.to_vec());
             self.cur_step = 0;
             self.swallowing = false;
+            self.mangling = None;
         } else {
             self.cur_step = self.cur_step.saturating_add(1);
+        }
+        if let Some(full) = &mut self.mangling {
+            // a later send of an attempt whose stream reply is being cut short: let the server write, then cut the whole reply again
+            let n_st = out.conn.stream.len();
+            let base = n_st - cut_len(full.len(), self.mangle).min(n_st);
+            self.inner.on_send(proto, peer, nth, data, out);
+            let new: Vec<u8> = out.conn.stream.split_off(n_st);
+            full.extend_from_slice(&new);
+            out.conn.stream.truncate(base);
+            let k = cut_len(full.len(), self.mangle);
+            out.conn.stream.extend_from_slice(&full[.. k]);
+            if !full.is_empty() {
+                out.close();
+            }
+            return;
         }
         if self.swallowing {
             return;
@@ -171,6 +208,47 @@ impl Responder for Faulty {
             match self.cur {
                 Fault::Silent => {}
                 Fault::SendFails => out.fail(),
+                Fault::Malformed if self.mangle != 0 && mangle_applies(self.family) => {
+                    // the valid reply, cut short
+                    let (n_dg, n_st) = (out.conn.inbox.len(), out.conn.stream.len());
+                    self.inner.on_send(proto, peer, nth, data, out);
+                    let cut = cut_len;
+                    if proto == Proto::Tcp && out.conn.inbox.len() == n_dg {
+                        // stream protocols: the reply may only be written after a later send of this attempt
+                        let full: Vec<u8> = out.conn.stream.split_off(n_st);
+                        let k = cut(full.len(), self.mangle);
+                        out.conn.stream.extend_from_slice(&full[.. k]);
+                        if !full.is_empty() {
+                            out.close();
+                        }
+                        self.mangling = Some(full);
+                        self.swallowing = false;
+                        return;
+                    }
+                    let single_dg = out.conn.inbox.len() == n_dg + 1 && out.conn.stream.len() == n_st;
+                    let stream_only = out.conn.inbox.len() == n_dg && out.conn.stream.len() > n_st;
+                    if single_dg && out.conn.inbox.back().map(|d| d.len() > 1).unwrap_or(false) {
+                        let d = out.conn.inbox.back_mut().unwrap();
+                        let k = cut(d.len(), self.mangle);
+                        d.truncate(k);
+                    } else if stream_only && out.conn.stream.len() - n_st > 1 {
+                        let k = cut(out.conn.stream.len() - n_st, self.mangle);
+                        out.conn.stream.truncate(n_st + k);
+                        out.close();
+                    } else {
+                        // not a single reply: the fixed malformed reply instead
+                        out.conn.inbox.truncate(n_dg);
+                        out.conn.stream.truncate(n_st);
+                        let m = malformed(self.family, self.unit, self.step);
+                        match proto {
+                            Proto::Udp => out.datagram(m),
+                            Proto::Tcp => {
+                                out.stream(&m);
+                                out.close();
+                            }
+                        }
+                    }
+                }
                 Fault::Malformed => {
                     let m = malformed(self.family, self.unit, self.step);
                     match proto {
